@@ -15,13 +15,13 @@ CHECKS = {
 CHECKS["C10"] = dict(
    category="model_checking",
    technique="explicit-state BFS over edit histories of the real ServerState (implementation is the transition function); differential invariant against a freshly constructed server",
-   text="Every history of update / multi-update / remove / multi-remove / rename / multi-rename over 4 module names and 13 colliding texts (changed exported signatures, importers, transitive-through-signature dependants, cycles, missing/self imports, local type errors, syntax errors, empty) from 8 initial servers is executed on the real ServerState up to depth 3 (quick) / to the fixpoint of the reachable state space (thorough); after every transition the diagnostics of every module must equal those of ServerState::new on the same contents. States merged by contents + stored errors + full global-signature dump.",
+   text="Every history of update / multi-update / remove / multi-remove / rename / multi-rename over 4 module names and 13 colliding texts (changed exported signatures, importers, transitive-through-signature dependants, cycles, missing/self imports, local type errors, syntax errors, empty) from 8 initial servers is executed on the real ServerState up to depth 3 (quick) / to the fixpoint of the reachable state space (thorough); after every transition the diagnostics held for every module NAME of the alphabet - also names that currently have no file - must equal those of ServerState::new on the same contents. States merged by contents + stored errors + full global-signature dump.",
    note="Trusted: hook H3 accessors; content/ops alphabet; diagnostics compared as sorted rendered lists; 64-bit fingerprints.",
    design_ref="DESIGN.md §5 C10")
 CHECKS["C11"] = dict(
    category="model_checking",
    technique="stateless exhaustive exploration of edit histories of the real ServerState with the complete query sweep after every edit (no state merging), oracle: catch_unwind",
-   text="Every edit history (33 edit ops: updates with 7 texts, removes, renames incl. absent/never-existing modules) of depth 1 with every line/column swept and depth 2 with token-boundary positions (quick) / depth 2 with every column (thorough) from 5 initial servers; after every edit all 11 request kinds (hover, definition, references, signature help, completion, code actions, rename valid/invalid, folding, formatting, diagnostics rendering) at every position incl. out-of-range ones and on absent modules. Every edit runs the production GC slice; contents put >15-byte (GC-managed) names in every identifier position.",
+   text="Every edit history (33 edit ops: updates with 7 texts, removes, renames incl. absent/never-existing modules) of depth 1 with every line/column swept and depth 2 with token-boundary positions (quick) / depth 2 with every column (thorough) from 5 initial servers; after every edit all 11 request kinds (hover, definition, references, signature help, completion, code actions, rename valid/invalid, folding, formatting, diagnostics rendering) at every position incl. out-of-range ones and on absent modules. Every edit runs the production GC slice; contents put >15-byte (GC-managed) names in every identifier position, including names that occur exactly once (unused class / interface / member type parameters, bounds, private members, variants) so that only the mark phase keeps them alive.",
    note="Trusted: catch_unwind observes every abort path of interest (stack overflow/abort would crash the engine = machinery failure). Incremental mark/sweep schedules beyond the production driver's are covered at heap level by C17.",
    design_ref="DESIGN.md §5 C11")
 CHECKS["C08"] = dict(
@@ -39,7 +39,7 @@ CHECKS["C09"] = dict(
 CHECKS["C05"] = dict(
    category="exploration",
    technique="bounded-exhaustive enumeration of token strings, single-edit/truncation neighbourhoods of the corpus, module pairs and nesting ladders (forked workers); oracle: catch_unwind, exit status, watchdog, token-bag comparison",
-   text="All token strings of length <=4 (quick) / <=5 (thorough) over a 30-class alphabet (+18 rare/hostile classes up to length 3/4) in 3 contexts; delete / duplicate / replace-by-class at every token, truncation at every byte and hostile-character insertion at every token start of the 20 smallest (quick) / all (thorough) corpus files; all 256 ordered pairs of two-module snippets; 14 nesting ladders up to depth 512 each rung in a forked process with the CLI's stack; 27 width ladders (one construct - tuple in each of the parser's tuple/lambda branches, parameters, fields, variants, payloads, type parameters/arguments, or-alternatives, imports, supertypes, arguments, statements, arms, captures, members, classes - repeated n times side by side for n in {0,1,2,15,16,17,18,33} quick / 0..40,64,100,255..257,1000 thorough). Every input goes through parse, check, both diagnostic renderings, format (when no syntax error) and compile_sources: no panic, no process death, no hang (20 s), and no identifier/literal token lost or invented without a syntax error.",
+   text="All token strings of length <=4 (quick) / <=5 (thorough) over a 30-class alphabet (+18 rare/hostile classes up to length 3/4) in 3 contexts; delete / duplicate / replace-by-class at every token, truncation at every byte and hostile-character insertion at every token start of the 20 smallest (quick) / all (thorough) corpus files; all 256 ordered pairs of two-module snippets; 14 nesting ladders up to depth 512 each rung in a forked process with the CLI's stack; call-shape ladders (9 callee kinds x 0..4 arguments x 6 kinds of last argument) and the generated ill-typed conformance/visibility programs of C06; 27 width ladders (one construct - tuple in each of the parser's tuple/lambda branches, parameters, fields, variants, payloads, type parameters/arguments, or-alternatives, imports, supertypes, arguments, statements, arms, captures, members, classes - repeated n times side by side for n in {0,1,2,15,16,17,18,33} quick / 0..40,64,100,255..257,1000 thorough). Every input goes through parse, check, both diagnostic renderings, format (when no syntax error) and compile_sources: no panic, no process death, no hang (20 s), and no identifier/literal token lost or invented without a syntax error.",
    note="'All UTF-8 strings' is not enumerable; the claim is over the listed finite neighbourhoods. 'Reasonably sized' is fixed at nesting depth <= 512.",
    design_ref="DESIGN.md §5 C05")
 CHECKS["C14"] = dict(
@@ -51,19 +51,19 @@ CHECKS["C14"] = dict(
 CHECKS["C07"] = dict(
    category="exploration",
    technique="bounded-exhaustive enumeration of pattern matrices over a type universe, decided by a brute-force matcher over all values (no shared code with the checker's matrix algorithm)",
-   text="All ordered arm lists of length <=3 (quick) / <=4 (thorough) over every pattern of constructor depth <=2 (3 where a struct/option is nested), incl. nested and top-level or-patterns with and without an irrefutable alternative, for 9 scrutinee types (2- and 3-variant enums, recursive enum, struct, enum of struct, generic option at two instantiations, two tuple types), plus every pattern as a destructuring let and as an if-let: the match/let is rejected as non-exhaustive iff some value (all values up to depth 4 enumerated) is matched by no arm; every reported counterexample denotes at least one value and one that no arm matches; an if-let is flagged useless iff its pattern matches every value.",
+   text="All ordered arm lists of length <=3 (quick) / <=4 (thorough) over every pattern of constructor depth <=2 (3 where a struct/option is nested), incl. nested and top-level or-patterns with and without an irrefutable alternative, plus or-patterns whose alternatives share the head constructor and differ in the payload (pairs, and triples with another variant) alone and in arm lists of length 2 (quick) / 3 (thorough) with shallow patterns, for 9 scrutinee types (2- and 3-variant enums, recursive enum, struct, enum of struct, generic option at two instantiations, two tuple types), plus every pattern as a destructuring let and as an if-let: the match/let is rejected as non-exhaustive iff some value (all values up to depth 4 enumerated) is matched by no arm; every reported counterexample denotes at least one value and one that no arm matches; an if-let is flagged useless iff its pattern matches every value.",
    note="Arm-redundancy is not asserted (not in the statement); counterexample read existentially; type universe and pattern depth are the stated bounds.",
    design_ref="DESIGN.md §5 C07")
 CHECKS["C06"] = dict(
    category="fault_enumeration",
    technique="exhaustive enumeration of single-fault mutants: every applicable site of 13 guaranteed-ill-typed fault kinds (sites and types from the checked AST) plus every hint-dependent expression tree with a wrongly typed leaf up to a size bound; oracle: error located in the mutated module, compile_sources returns Err",
-   text="tests/ + std/ (one accepted program, 16 smallest modules quick / all thorough): at every applicable site one edit per fault kind - operand/condition replaced by a literal of another type, argument of a closed declared parameter type replaced, argument added/removed, explicit type argument added, variable / class / member / imported member / module replaced by a fresh name, required interface method deleted, int literal replaced by 2147483648 / 99999999999, one arm of a distinct-variant match deleted, a private function or class used from a new module. Each mutant must yield >=1 error located in the mutated module; the first mutant per (file, kind) additionally runs compile_sources on the whole program and must get Err without panic. Inference shapes: every expression tree with <=2 (quick) / <=3 (thorough; 4 in two contexts) internal nodes over {generic identity call, block, immediately applied lambda, if, match, two-argument generic call} and leaves {None, Some(1), Some(\"oops\")} with at least one wrongly typed leaf, in each of 6 contexts that fix the expected type (closed parameter, generic function with a closed parameter first/last, annotation, generic method of an instantiated class, lambda body): must be rejected; one compile per context must return Err.",
+   text="tests/ + std/ (one accepted program, 16 smallest modules quick / all thorough): at every applicable site one edit per fault kind - operand/condition replaced by a literal of another type, argument of a closed declared parameter type replaced, argument added/removed, explicit type argument added, variable / class / member / imported member / module replaced by a fresh name, required interface method deleted, int literal replaced by 2147483648 / 99999999999, one arm of a distinct-variant match deleted, a private function or class used from a new module. Each mutant must yield >=1 error located in the mutated module; the first mutant per (file, kind) additionally runs compile_sources on the whole program and must get Err without panic. Inference shapes: every expression tree with <=2 (quick) / <=3 (thorough; 4 in two contexts) internal nodes over {generic identity call, block, immediately applied lambda, if, match, two-argument generic call} and leaves {None, Some(1), Some(\"oops\")} with at least one wrongly typed leaf, in each of 6 contexts that fix the expected type (closed parameter, generic function with a closed parameter first/last, annotation, generic method of an instantiated class, lambda body): must be rejected; one compile per context must return Err. Generated ill-typed families: interface conformance (3 class kinds x missing method named m / init, missing function, 4 wrong implementations), visibility across modules (10 uses of private classes / members incl. values of a private class leaked through a public function, plus a same-named class), call shapes (all ill-typed members of the 9 callee kinds x 0..4 arguments x 6 last-argument kinds ladder): each must be rejected in the using module and compile_sources must return Err.",
    note="Ill-typedness is by construction (expected type fixed by operator or declared closed parameter type). Bound violations not generated.",
    design_ref="DESIGN.md §5 C06")
 CHECKS["C16"] = dict(
    category="model_checking",
    technique="stateless exhaustive exploration: full product of import layouts x bodies x exporters x short edit histories on the real ServerState; proposed edits applied to the real text with LSP semantics, result re-parsed and re-checked",
-   text="10668 documents (0-3 existing imports in every order, incl. stale imports of the unresolved class itself from a module that does not export it and from a module that does not exist, `;` or not per import, newline/space/blank-line separators, line/block comments before/between/after the imports, leading blank lines, unresolved `Foo` in expression and/or annotation position, one or two exporting modules) x 2 (quick) / 4 (thorough) histories (fresh server, re-saved document, re-saved exporter, edited exporter then re-save): at every column of every `Foo` the auto-import quick fixes and the completion item's additional edits must have in-document, ordered, non-overlapping ranges; applying them must give a text without new syntax errors that imports Foo from the named module, no longer reports Foo unresolved, and is otherwise the same program.",
+   text="14412 documents (0-3 existing imports in every order, incl. imports that span several lines (wrapped member list; `from` on its own line), incl. stale imports of the unresolved class itself from a module that does not export it and from a module that does not exist, `;` or not per import, newline/space/blank-line separators, line/block comments before/between/after the imports, leading blank lines, unresolved `Foo` in expression and/or annotation position, one or two exporting modules) x 2 (quick) / 4 (thorough) histories (fresh server, re-saved document, re-saved exporter, edited exporter then re-save): at every column of every `Foo` the auto-import quick fixes and the completion item's additional edits must have in-document, ordered, non-overlapping ranges; applying them must give a text without new syntax errors that imports Foo from the named module, no longer reports Foo unresolved, and is otherwise the same program.",
    note="Whether a quick fix is offered at all is not asserted. The insert-without-separator defect after an import lacking `;` is a known finding pinned by the repository's own differ test.",
    design_ref="DESIGN.md §5 C16")
 CHECKS["C15"] = dict(
@@ -75,10 +75,10 @@ CHECKS["C15"] = dict(
 CHECKS["C13"] = dict(
    category="exploration",
    technique="exhaustive enumeration of rewrite instances (7 rewrite kinds x every applicable site) applied as text edits; oracle: same accept/reject verdict from the real checker, same behaviour under the reference semantics",
-   text="For corpus/bind/* and the tests/ modules (8 smallest quick / all thorough, each inside the whole tests+std program with a synthesised entry) and for rejected variants of them: every consistent rename of one local binding, every permutation (<=4) or adjacent transposition + reversal of toplevels and of class members, every expression wrapped in ( ) and in { }, every un-annotated let annotated with the inferred type, every inferred type-argument list made explicit, every movable class split into a new module with imports both ways. Plus a generated spelling family: every hint-dependent expression tree with <=2 (quick) / <=3 (thorough) internal nodes over {generic identity call, block, applied lambda, if, match, two-argument generic call} and leaves {None, Some(1), a local} in 7 contexts (2541 runnable programs in the quick tier), each under every applicable rewrite instance; for programs the checker rejects, explicit type arguments are added only at sites whose inferred arguments are closed. The verdict must not change; accepted runnable programs must print the same lines and end the same way under refsem.",
+   text="For corpus/bind/* and the tests/ modules (8 smallest quick / all thorough, each inside the whole tests+std program with a synthesised entry) and for rejected variants of them: every consistent rename of one local binding, every permutation (<=4) or adjacent transposition + reversal of toplevels and of class members, every expression wrapped in ( ) and in { }, every un-annotated let annotated with the inferred type, every inferred type-argument list made explicit, every un-annotated lambda parameter annotated with its inferred type (singly and all at once), every movable class split into a new module with imports both ways. Plus a generated spelling family: every hint-dependent expression tree with <=2 (quick) / <=3 (thorough) internal nodes over {generic identity call, block, applied lambda, if, match, two-argument generic call} and leaves {None, Some(1), a local} in 10 contexts incl. higher-order calls whose lambda argument matches on its parameter, each under every applicable rewrite instance; for programs the checker rejects, explicit type arguments are added only at sites whose inferred arguments are closed. The verdict must not change; accepted runnable programs must print the same lines and end the same way under refsem.",
    note="Rewrites are text edits at spans validated by C14; only bracket-balanced expression spans are wrapped; annotate/explicit-targs only where the type is closed and spellable. Rejected side: hand-mutated variants plus the generated programs the checker rejects (e.g. under-constrained ones).",
    design_ref="DESIGN.md §5 C13")
-_FAM = "Families (bounded-exhaustive source-text generators): enum type shapes (all variant-kind lists <=3 over 6/7 payload kinds incl. a struct-class payload for one class, all pairs of <=2 (quick) / <=3 (thorough) variant lists for two mutually referring classes in both declaration orders, generic instantiations; every constructor term to depth 2 shown directly, through a generic identity, through a generic struct and wrapped in / absent from a generic option enum); integer expressions of depth <=2 over + - * / % with literal and run-time operands over a 9-value alphabet incl. INT_MIN/INT_MAX (overflow and division by zero excluded by an exact evaluator); comparisons, short-circuit and operand order with side effects; closures (0-3 captures x nesting x this), method / function / builtin references incl. references whose receiver is an otherwise unused parameter, interface-bounded dispatch, call evaluation order; lambdas in generic scopes (7 capture sets x 3 lambda-parameter kinds x body uses a generic type or not x generic class method / generic function x nested or not = 144 programs); tail recursion with all 49 two-parameter update pairs and 8 three-parameter permutations, non-tail / mutual / method recursion; all Vec operation sequences of length <=3 (quick) / <=4 (thorough) over 11 ops for 5 element types (one program per possibly-panicking sequence); 12 string-literal content classes as literals and as run-time-built strings (concatenation, comparison, Map keys), fromInt/toInt over the alphabet, panics with 4 message classes; struct patterns in all 6 field orders with and without `as`, nested / or / if-let / tuple patterns."
+_FAM = "Families (bounded-exhaustive source-text generators): enum type shapes (all variant-kind lists <=3 over 6/7 payload kinds incl. a struct-class payload for one class, all pairs of <=2 (quick) / <=3 (thorough) variant lists for two mutually referring classes in both declaration orders, generic instantiations; every constructor term to depth 2 shown directly, through a generic identity, through a generic struct and wrapped in / absent from a generic option enum); integer expressions of depth <=2 over + - * / % with literal and run-time operands over a 9-value alphabet incl. INT_MIN/INT_MAX (overflow and division by zero excluded by an exact evaluator); comparisons, short-circuit and operand order with side effects; closures (0-3 captures x nesting x this), method / function / builtin references incl. references whose receiver is an otherwise unused parameter, interface-bounded dispatch, call evaluation order; lambdas in generic scopes (7 capture sets x 3 lambda-parameter kinds x body uses a generic type or not x generic class method / generic function x nested or not = 144 programs); tail recursion with all 49 two-parameter update pairs and 8 three-parameter permutations, non-tail / mutual / method recursion; the self call in 12 positions relative to the value of its branch (tail, bound-then-returned, discarded-then-literal/variable, used, after a side effect, twice, nested branches, match arms) x int/bool/Str x function/method; all Vec operation sequences of length <=3 (quick) / <=4 (thorough) over 11 ops for 5 element types (one program per possibly-panicking sequence); 12 string-literal content classes as literals and as run-time-built strings (concatenation, comparison, Map keys), fromInt/toInt over the alphabet, panics with 4 message classes; struct patterns in all 6 field orders with and without `as`, nested / or / if-let / tuple patterns."
 CHECKS["C01"] = dict(
    category="exploration",
    technique="bounded-exhaustive enumeration of program families compiled by the real pipeline and executed on V8; oracle: reference interpreter of the checked source AST (specification semantics)",
@@ -88,7 +88,7 @@ CHECKS["C01"] = dict(
 CHECKS["C02"] = dict(
    category="exploration",
    technique="bounded-exhaustive enumeration of programs x optimiser pipelines (every on/off configuration, every pass alone and after CCP, via hook H1) on the real optimiser; differential oracle: an MIR interpreter run on the unoptimised vs the optimised MIR",
-   text="Loop family: complete product of 12 guard forms (i<B, i<=B, i>B, i>=B, i!=B, mirrored forms, i*2<B, i+1<B) x strides {1,2,-1,1e9} (quick) / {1,2,3,-1,-2,+-1e9} (thorough) x 10/13 updates (accumulating, derived i*3 / i*3+1 / i*-2, printing, overwriting) x 2/4 results x 3/7 literal bounds incl. INT_MAX neighbourhood x both counter names, each called with every start around the bound (and two starts whose derived value i*3 wraps) from literal and run-time arguments; plus the C01 program families (every 8th program quick / all thorough). Each program is lowered by the real pipeline and pushed through 8 (quick) / all 32 (thorough) optimiser configurations and each of the 8 passes alone and after CCP; the optimised MIR must print the same lines and end the same way as the unoptimised MIR under mirsem, with 16x the fuel (introduced non-termination is a violation), must keep main, and the optimiser must not panic. Runs whose unoptimised execution overflows i32 in + - * are dropped (left open by the language). Sub-pass firing counters (LICM, algebraic, IV elimination, strength reduction) are reported; all fire in both tiers.",
+   text="Loop family: complete product of 12 guard forms (i<B, i<=B, i>B, i>=B, i!=B, mirrored forms, i*2<B, i+1<B) x strides {1,2,-1,1e9} (quick) / {1,2,3,-1,-2,+-1e9} (thorough) x 10/13 updates (accumulating, derived i*3 / i*3+1 / i*-2, printing, overwriting) x 2/4 results x 3/7 literal bounds incl. INT_MAX neighbourhood x both counter names, each called with every start around the bound (and two starts whose derived value i*3 wraps) from literal and run-time arguments; plus an operand-order family (9 operators x 10 inner forms `x +- c` x constant left/right x 5 constants x 9 run-time values, inline and let-bound), an inline-permutation family (a small callee called with all 27 argument tuples over the caller's identically named parameters, functions and methods), and the C01 program families (every 8th program quick / all thorough). Each program is lowered by the real pipeline and pushed through 8 (quick) / all 32 (thorough) optimiser configurations and each of the 8 passes alone and after CCP; the optimised MIR must print the same lines and end the same way as the unoptimised MIR under mirsem, with 16x the fuel (introduced non-termination is a violation), must keep main, and the optimiser must not panic. Runs whose unoptimised execution overflows i32 in + - * are dropped (left open by the language). Sub-pass firing counters (LICM, algebraic, IV elimination, strength reduction) are reported; all fire in both tiers.",
    note="Trusted: mirsem (bound to refsem/Wasm by setup selftest on tests/ programs); back ends are not re-run per pipeline (C01/C04 run them on the default configuration). IV elimination's guard rewrite is genuinely wrong for most guard forms (known finding C02-K1, pinned by the repository's loop_optimization tests): deviations of loops with update acc:=i*3 / result acc under a pipeline containing the loop pass are therefore not detected.",
    design_ref="DESIGN.md §5 C02, §10.2")
 CHECKS["C03"] = dict(
